@@ -1304,7 +1304,9 @@ def oracle(ctx, K):
             same('SO3.Exp:vector', lambda: SO3.Exp(w).A, R, rp)
             same('SO3.Exp:matrix', lambda: SO3.Exp(skew_np(w)).A, R, rp)
             same('SE3.Exp:vector', lambda: SE3.Exp(tw).A, T, rp)
-            same('SE3.Exp:matrix', lambda: SE3.Exp(skewa_np(tw)).A, T, rp)
+            same('SE3.Exp:se3-matrix-form', lambda: SE3.Exp(skewa_np(tw)).A, T, rp)      # raised ValueError before fix 39bd617
+            same('SE3.Exp:list-of-se3-matrices', lambda: SE3.Exp([skewa_np(tw), skewa_np(tw * 0.5)])[1].A, base.trexp(tw * 0.5), rp)
+            same('SE3.Exp:list-of-twists', lambda: SE3.Exp([tw, tw * 0.5])[1].A, base.trexp(tw * 0.5), rp)
             same('SO3.log', lambda: SO3(R).log(), base.trlog(R, check=False), rp)
             same('SO3.log:twist', lambda: SO3(R).log(twist=True), base.trlog(R, check=False, twist=True), rp)
             same('SE3.log', lambda: SE3(T).log(), base.trlog(T, check=False), rp)
